@@ -80,7 +80,9 @@ func bothReportersJob(prop, tier string) *SeqJob {
 					o.CachedReporter = cachedSide{rec, rec}
 				}
 				root, rootCloser := tally.NewRootScope(o, 0)
-				where := func() string { return fmt.Sprintf("[plain closable=%v cached closable=%v] %v", c.pClosable, c.qClosable, histLabels(alphabet, hist)) }
+				where := func() string {
+					return fmt.Sprintf("[plain closable=%v cached closable=%v] %v", c.pClosable, c.qClosable, histLabels(alphabet, hist))
+				}
 				type obj struct {
 					s      tally.Scope
 					closed bool
